@@ -30,7 +30,7 @@ CONF = {
                 runs={"quick": 6000, "thorough": 150000},
                 wall={"quick": 170, "thorough": 1800}),
     "C06": dict(module="xsim.eng_c06", stub=False, kind="shards", shadow_hashseed=0,
-                runs={"quick": 2400, "thorough": 30000},
+                runs={"quick": 3200, "thorough": 30000},
                 wall={"quick": 240, "thorough": 2700}),
     "C07": dict(module="xsim.eng_c07", stub=True, kind="shards", shadow_hashseed=0,
                 runs={"quick": 16000, "thorough": 400000},
